@@ -447,23 +447,29 @@ def eval_eq(ctx, cases):
         want = 'equal' if r['spec'] else 'differ'
         kind = 'matrix' if not same_m else 'lattice' if r['spec'] else 'fraction'
         neg = '|neg' if any(Fraction(*q) < 0 for q in case['a'] + case['b']) else ''
-        ctx.count(['eq', sa, sb], nontrivial=same_m and any(d != 0 for d in diffs), tags=['eq', f'must-{want}', f'den={den}', kind],
+        ctx.count(['eq', sa, sb], nontrivial=same_m and any(d != 0 for d in diffs), tags=['eq', f'must-{want}', f'den={den}', kind, 'eq-frac-comps=%d' % sum(1 for d in diffs if d.denominator != 1)],
                   sample=dict(stream='eq', a=sa, b=sb, spec=r['spec']))
         oa, ea = build(sa)
         ob, eb = build(sb)
         if oa is None or ob is None:
             continue  # parse stream's business
-        try:
-            got = bool(oa == ob)
-        except Exception as e:  # noqa
-            got = f'raise {type(e).__name__}'
-        payload = dict(case=case, stream='eq', a=sa, b=sb, expected=r['spec'], actual=got, model=r['model'])
-        if got != r['spec']:
-            ctx.fail(f'C10|eq|must-{want}|{kind}|den={den}{neg}', f'{sa} == {sb} gives {got}; the translations differ by '
-                     f'{[str(d) for d in diffs]}, matrices {"equal" if same_m else "different"}: must be {r["spec"]}', payload)
-        elif got != r['model']:
-            ctx.fail(f'C10|eq|must-{want}|{kind}|den={den}{neg}|model', f'{sa} == {sb}: implementation {got}, model {r["model"]}', payload,
-                     kind='correspondence')
+        nfrac = sum(1 for d in diffs if d.denominator != 1)
+        payload = dict(case=case, stream='eq', a=sa, b=sb, expected=r['spec'], model=r['model'])
+        for direction, (p, q, x, y) in (('', (oa, ob, sa, sb)), ('|reversed', (ob, oa, sb, sa))):
+            try:
+                got = bool(p == q)
+            except Exception as e:  # noqa
+                got = f'raise {type(e).__name__}'
+            if got != r['spec']:
+                ctx.fail(f'C10|eq|must-{want}|{kind}|ncomp={nfrac}|den={den}{neg}{direction}',
+                         f'{x} == {y} gives {got}; the translations differ by {[str(d) for d in diffs]} '
+                         f'({nfrac} component(s) not by a whole number), matrices {"equal" if same_m else "different"}: '
+                         f'must be {r["spec"]}', dict(payload, actual=got))
+                break
+            elif got != r['model']:
+                ctx.fail(f'C10|eq|must-{want}|{kind}|ncomp={nfrac}|den={den}{neg}{direction}|model',
+                         f'{x} == {y}: implementation {got}, model {r["model"]}', dict(payload, actual=got), kind='correspondence')
+                break
 
 
 # ------------------------------------------------------------------------------------------------
@@ -474,19 +480,38 @@ def comp_of(rng, items, mode):
     return dict(text=text, items=items, layout=mode)
 
 
-def eq_case(rng, k1, k2, den, row, same_matrix=True, decimal=False):
+FLIP = {'X': '-X', '-X': 'X', 'Y': '-Y', '-Y': 'Y', 'Z': '-Z', '-Z': 'Z', 'X-Y': '-X+Y', '-X+Y': 'X-Y'}
+
+
+def eq_case_vec(rng, a, b, same_matrix=True, decimal=False):
+    """operators with translations a and b (three Fractions each), the same letters unless same_matrix is False"""
     letters = [rng.choice(['X', '-X', 'X-Y', '-X+Y']), rng.choice(['Y', '-Y', 'X-Y']), rng.choice(['Z', '-Z'])]
     lb = list(letters)
     if not same_matrix:
         j = rng.randrange(3)
-        lb[j] = {'X': '-X', '-X': 'X', 'Y': '-Y', '-Y': 'Y', 'Z': '-Z', '-Z': 'Z', 'X-Y': '-X+Y', '-X+Y': 'X-Y'}[lb[j]]
+        lb[j] = FLIP[lb[j]]
+    pr = lambda q: [q.numerator, q.denominator]
+    return dict(stream='eq', a=[pr(Fraction(q)) for q in a], b=[pr(Fraction(q)) for q in b], letters_a=letters, letters_b=lb,
+                decimal=decimal)
+
+
+def eq_case(rng, k1, k2, den, row, same_matrix=True, decimal=False):
+    """the translations differ by (k1 - k2)/den in one component, by whole numbers in the others"""
     others = [Fraction(rng.randint(-12, 24), 12) for _ in range(3)]
     a = list(others)
     b = [o + rng.choice([0, 0, 1, -1, 2]) for o in others]
     a[row] = Fraction(k1, den)
     b[row] = Fraction(k2, den)
-    pr = lambda q: [q.numerator, q.denominator]
-    return dict(stream='eq', a=[pr(q) for q in a], b=[pr(q) for q in b], letters_a=letters, letters_b=lb, decimal=decimal)
+    return eq_case_vec(rng, a, b, same_matrix, decimal)
+
+
+def eq_case_diff(rng, diffs, den, same_matrix=True, decimal=False, shifts=True):
+    """the translations differ by the vector `diffs` (plus random whole numbers): any number of components at once"""
+    a = [Fraction(rng.randint(-den, 2 * den), den) for _ in range(3)]
+    b = [x - Fraction(d) - (rng.choice([0, 0, 1, -1, 2, -3]) if shifts else 0) for x, d in zip(a, diffs)]
+    if rng.random() < 0.5:
+        a, b = b, a
+    return eq_case_vec(rng, a, b, same_matrix, decimal)
 
 
 def run(ctx):
@@ -495,7 +520,10 @@ def run(ctx):
                 '{2,3,4,6,8,12}, decimals, integers; before, after or between the terms; every sign choice), enumerated exhaustively, '
                 'each in canonical and in random blank/case layout, plus random components with numerals of any length; operators = '
                 'triples of components; distinct by the component text (parse), SYMM line (card), triple (roundtrip), operator pair (eq); '
-                'non-trivial = more than one item (parse), non-zero translation (roundtrip), equal matrices with different translations (eq)')
+                'non-trivial = more than one item (parse), non-zero translation (roundtrip), equal matrices with different translations (eq); '
+                'eq pairs: one-component differences k1/12 vs k2/12 and k/8 exhaustively, every difference VECTOR on the twelfths and eighths '
+                'grids in [-1,1]^3 (several components at once, all sign combinations, cancelling sums) plus whole-number shifts, random mixed '
+                'denominators; both directions a == b and b == a')
     ctx.assumptions = ['translations compared at 1e-12 against the exact rational (the code computes float(n)/float(d))',
                        'eq: translations are multiples of 1/N with N <= 1e9 (hypothesis of eq_iff_mod_lattice for the tolerance 1e-9)',
                        'alphabet of the grammar only (hypothesis under which float()/eval are modelled)']
@@ -554,4 +582,43 @@ def run(ctx):
         k1 = rng.randint(-3 * den, 3 * den)
         k2 = k1 + den * rng.randint(-3, 3) if rng.random() < 0.6 else rng.randint(-3 * den, 3 * den)
         eqs.append(eq_case(rng, k1, k2, den, rng.randrange(3), same_matrix=rng.random() < 0.8))
-    evaluate(ctx, eqs)
+    # differences in several components at once: every difference vector on the twelfths grid in [-1, 1]^3 (all sign
+    # combinations; sums that are whole numbers or zero, e.g. (1/2,-1/2,0), (1/3,2/3,0), (1/3,1/3,1/3), (1/6,1/3,1/2);
+    # whole-number vectors = must-equal with shifts in several components), each plus random whole numbers
+    grid = range(-12, 13)
+    for k0 in grid:
+        for k1 in grid:
+            for k2 in grid:
+                eqs.append(eq_case_diff(rng, [Fraction(k0, 12), Fraction(k1, 12), Fraction(k2, 12)], 12))
+    # the same on the eighths grid with decimal spelling, without extra shifts
+    for k0 in range(-8, 9):
+        for k1 in range(-8, 9):
+            for k2 in range(-8, 9):
+                eqs.append(eq_case_diff(rng, [Fraction(k0, 8), Fraction(k1, 8), Fraction(k2, 8)], 8, decimal=True, shifts=False))
+    # other and mixed denominators; cancelling pairs/triples on purpose; different matrices with whole-number vectors
+    for _ in range(ctx.budget(3000, 60000)):
+        dens = [rng.choice([2, 3, 4, 5, 6, 7, 8, 10, 12, 24, 100]) for _ in range(3)]
+        r = rng.random()
+        if r < 0.35:        # two components cancel exactly (d, -d) or add up to a whole number (d, n - d)
+            i, j = rng.sample(range(3), 2)
+            d = Fraction(rng.randint(1, 3 * dens[i]), dens[i]) * rng.choice([1, -1])
+            diffs = [Fraction(0)] * 3
+            diffs[i] = d
+            diffs[j] = rng.randint(-2, 2) - d
+            if rng.random() < 0.3:
+                diffs[3 - i - j] = Fraction(rng.randint(-2, 2))
+        elif r < 0.55:      # three components add up to a whole number
+            d0 = Fraction(rng.randint(-2 * dens[0], 2 * dens[0]), dens[0])
+            d1 = Fraction(rng.randint(-2 * dens[1], 2 * dens[1]), dens[1])
+            diffs = [d0, d1, rng.randint(-2, 2) - d0 - d1]
+            rng.shuffle(diffs)
+        elif r < 0.75:      # whole numbers in every component (must be equal unless the matrix differs)
+            diffs = [Fraction(rng.randint(-3, 3)) for _ in range(3)]
+        else:
+            diffs = [Fraction(rng.randint(-2 * d, 2 * d), d) for d in dens]
+        den = 1
+        for d in diffs:
+            den = den * d.denominator // __import__('math').gcd(den, d.denominator)
+        eqs.append(eq_case_diff(rng, diffs, max(den, 2) if den <= 600 else 12, same_matrix=rng.random() < 0.85))
+    for i in range(0, len(eqs), 10000):
+        evaluate(ctx, eqs[i:i + 10000])
